@@ -520,8 +520,8 @@ parenthesised commas, span lines, are empty), then
   which is no token for the reference.
 The relation between the two bookkeepings is `Lemmas.MacroTameSpec.Rel`: in the list rssl is scanning, every
 token's hide set contains the names of the disabled entries, and the tokens that name enabled macros have exactly
-that hide set.  A derivation exists exactly for the inputs accepted by the decision procedure `tameRun`
-(`expand_refines_spec_decided`), for every input over a table of object-like macros (`object_like_refines_spec`); the
+that hide set.  A derivation exists for every input accepted by the decision procedure `tameRun`
+(`expand_refines_spec_decided`) and for every input over a table of object-like macros (`object_like_refines_spec`); the
 side conditions of `Tame` exclude the deviation classes `differs_*` below, and only those were found necessary:
 replacement lists without `##` (`WFMacro.noConcat`; `paste_*` treat `##`), what an argument expands to names no enabled
 macro (`OnlyDisabled`), no invocation spans the end of an expanded replacement list (`NoFire`), a function-like name
